@@ -30,6 +30,7 @@ def run(ctx):
     cfg2 = [(2, BN128, E.D(2))] + ([(3, BLS12_381, E.D(2))] if ctx.thorough else [])
     e1.sweep(ctx, d2, cfg2, "pv.checks.c01.oracle", modes=MODES if ctx.thorough else ("plain", "g0"))
     X.real_backend_sweeps(ctx, "pv.checks.c01.oracle", MODES)
+    e1.wide_sweep(ctx, "pv.checks.c01.oracle", MODES, include_assert=True)
     X.structured_sweep(ctx, "pv.checks.c01.oracle", MODES, fxp=True)
     X.long_run(ctx, "unsat")
     e1.bfs_sweep(ctx, {"unsat", "unsat-left-by-aborted-call"}, ctx.thorough)
